@@ -117,7 +117,10 @@ func genC16(o *Out, rng *rand.Rand, tier string) {
 		}
 		chain := cur
 		if rng.Intn(2) == 0 {
-			chain = wire(chain) // after a trip over the wire
+			// after a trip over the wire: the chain must come back as it was sent
+			before := chain
+			chain = wire(before)
+			emit("Wire", before, map[string]any{}, guard(func() map[string]any { return res6(dhcpv6.FromBytes(before.ToBytes())) }), "wire")
 		}
 		emit("Decap", chain, map[string]any{}, guard(func() map[string]any { return res6(dhcpv6.DecapsulateRelay(chain)) }), "decap")
 		emit("Inner", chain, map[string]any{}, guard(func() map[string]any {
